@@ -165,6 +165,23 @@ class Sink:
             return None
         return leaf
 
+    def record_writes(self, fn):
+        """calls in fn that hand the record to the device: the base class's send(<the message>), or m_device->write(...) itself when a protected write
+        helper of the base class has been spliced in"""
+        out = []
+        for n in fn.calls():
+            c = strip_tmpl(n.get("callee") or "")
+            if name_is(c, ("QIODevice::write", "QIODevice::putChar")) and is_this_field(unwrap_ptr(n.get("obj")), IO + "::m_device"):
+                out.append(n)
+            elif n.get("qualified") and c.split("::")[-1] == "send" and skip_copies(n.get("obj") or {"k": "this"}).get("k") == "this" and arg_is_param(n, 0, fn, 0):
+                out.append(n)
+        return out
+
+    def message_derived(self, fn, call):
+        """some argument of the call is computed from fn's message parameter (the message itself, its date, the length of its encoded text ...)"""
+        pd = fn.params[0].get("decl") if fn.params else None
+        return any(x.get("k") == "ref" and x.get("decl") == pd for a in (call.get("args") or []) for x in walk(expand_locals(fn, a)))
+
     def calls_to(self, fn, role):
         """calls in fn of the function playing `role` (resolved by identity, not by spelling)"""
         t = self.m.get(role)
